@@ -1,4 +1,5 @@
 import IPT.Lemmas.ExtLat
+import IPT.Thm.C13
 /-
   C09 — nearest-good-day fallback finds the closest date with valid twilight.
   The search and the writers are proved for EVERY scalar type and for an arbitrary
@@ -130,6 +131,14 @@ theorem found_day_fills_both (p : Params α) (h : PHours α) (env : Env α) (a :
     NaiveDate by whole days; that its f64 value is the Julian Day of that date is Thm/C13 `jd_sub_add`) -/
 theorem stepping_is_civil (j : JD α) (i : Nat) : (j.sub i).rd = j.rd - i ∧ (j.add i).rd = j.rd + i :=
   ⟨rfl, rfl⟩
+
+/-- …and over ℝ the Julian Day value it carries is the Julian Day of that civil date (Thm C13), so
+    `hoursAt off` in the real environment is the conventional computation of the date `off` days
+    away — for every date from 1583 on -/
+theorem stepping_lands_on_that_date (rd : Int) (gmt : ℝ) (i : ℕ) (h : C13.rd1583 ≤ rd - i) :
+    ((JD.new rd gmt).sub i).value = (JD.new (rd - i) gmt).value ∧
+    ((JD.new rd gmt).add i).value = (JD.new (rd + i) gmt).value :=
+  ⟨(C13.jd_sub_is_jd_of_date rd gmt i h).1, (C13.jd_sub_is_jd_of_date rd gmt i h).2.2.1⟩
 
 -- non-vacuity: a search space with a tie at distance 2 (both date-2 and date+2 good) returns
 -- the earlier date (the one whose Shurooq slot is empty in this toy space)
